@@ -92,8 +92,15 @@ package object
 // the comparison is a strict weak order, which for one comparable type is C15.cmp.* above).
 //@ func Sort
 //@ props C15
-// ("mutually comparable input": every item implements Comparable; for other items the comparison closure calls a
-// method on a nil interface and the VM reports the recovered panic as the error)
+// ("mutually comparable input": every item implements Comparable; for other items the closure records a type error -
+// unit Sort$1 below: KF-73 fixed, it used to go on and call Compare on the nil interface)
 //@ requires forall(k, 0, len(items), items[k] != nil && ref(items[k]) != nil && implements(items[k], Comparable))
 //@ sortby[C15.sort.less] 1: CMPo(items[a], items[b]) == -1
 //@ ensures[C15.sort.ordered] forall(i, 0, len(items), forall(j, i + 1, len(items), CMPo(items[j], items[i]) != -1))
+
+// C03: the comparison closure of Sort dereferences no nil interface, whatever the items are (sort.SliceStable calls it
+// with indices inside the slice; the items of a list are never nil).
+//@ func Sort$1
+//@ props C03
+//@ safety nil index
+//@ assume[less.args] 0 <= a && a < len(cap_items) && 0 <= b && b < len(cap_items) && forall(k, 0, len(cap_items), cap_items[k] != nil && ref(cap_items[k]) != nil)
